@@ -268,6 +268,19 @@ func genCodec(repo, out string) {
 	l.line("def encChecksLength : Bool := %s", leanBool(checksLen))
 	l.line("/-- Decrypt rejects `b[0] != version` -/")
 	l.line("def encChecksVersion : Bool := %s", leanBool(checksVer))
+
+	// metadata.go getScalarValue: the text of a scalar node, whatever its tag
+	md := parse(filepath.Join(repo, "pkg/resource/metadata.go"))
+	scalarRaw := false
+
+	if fd := method(md, "", "getScalarValue"); fd != nil && fd.Body != nil && len(fd.Body.List) == 2 {
+		is, ok := fd.Body.List[0].(*ast.IfStmt)
+		scalarRaw = ok && src(is.Cond) == "val.Kind != yaml.ScalarNode" && is.Else == nil && len(is.Body.List) == 1 &&
+			strings.HasPrefix(src(is.Body.List[0]), "panicFormatf(") && src(fd.Body.List[1]) == "return val.Value"
+	}
+
+	l.line("/-- metadata.go getScalarValue: a non-scalar node is rejected, a scalar node yields its text whatever its tag -/")
+	l.line("def yamlScalarIsNodeText : Bool := %s", leanBool(scalarRaw))
 	l.write(out, ns)
 }
 
